@@ -335,7 +335,7 @@ known('K-C18-relative-names', 'C18',
       '`build/out.js` is `build/out.js.map`, which resolves to '
       '`build/build/out.js.map`.')
 rule('K-C18-relative-names',
-     r'^C18\|.*url-does-not-resolve-to-map\|names=rel-subdir')
+     r'^C18\|.*url-does-not-resolve-to-map\|names=rel-(subdir|wide)')
 
 # ---------------------------------------------------------------- C19
 known('K-C19-python-literal-evaluation', 'C19',
